@@ -36,7 +36,9 @@ const char* vh_property() { return "C10"; }
 static const uint32_t kBadAlign[] = {3u, 5u, 6u, 12u, 1000u, 65535u, 0x10001u, 0xFFFFFFFFu};
 static const int32_t kOrders[] = {INT32_MIN, -1000, -1, 0, 1, 2, 1000, INT32_MAX};
 static const size_t kLens[] = {1, 2, 3, 4, 5, 7, 8, 13, 16, 31, 32, 33, 63, 64, 65, 100, 255, 256, 1000, 4095, 4096, 4097, 9000};
-static const uint64_t kVSizes[] = {0, 1, 2, 7, 8, 9, 64, 100, 1000, 4096, 4097, 65536, 65537, 100000};
+static const uint64_t kVSizes[] = {0, 1, 2, 7, 8, 9, 64, 100, 1000, 4096, 4097, 65536, 65537, 100000,
+                                   // .bss-style reservations that push later sections across the 2 GiB / 4 GiB lines (layout is judged arithmetically; no image is built)
+                                   0x7FFFFFF0ull, 0x80000000ull, 0xFFFFFFF0ull, 0x100000000ull, 0x100000010ull, 0x200000001ull};
 static const uint64_t kBases[] = {0x10000ull, 0x7FFF0000ull, 0x100000000ull, 0x123456780000ull, 0x7F0000000000ull, 0x400000ull};
 static const uint64_t kAddrs[] = {0x1000ull, 0x7FFF1000ull, 0x100001000ull, 0x123456789000ull, 0x7F0000001000ull,
                                   0xFFFFFFFFFFFFF000ull, 0x8000000000000000ull, 0x401000ull};
@@ -81,7 +83,7 @@ rc::Gen<vh::Case> vh_gen(const vh::Opts&) {
       int len = ls < 80 ? *vh::irange<int>(0, 17) : *vh::irange<int>(0, int(NELEM(kLens)) - 1);
       return vh::Op{3, *vh::irange<int>(0, 13), len, *vh::irange<int>(0, 255)};
     }
-    if (sel < 65) return vh::Op{4, *vh::irange<int>(0, 13), *vh::irange<int>(0, int(NELEM(kVSizes)) - 1)};
+    if (sel < 65) return vh::Op{4, *vh::irange<int>(0, 13), *vh::irange<int>(0, 99) < 88 ? *vh::irange<int>(0, 13) : *vh::irange<int>(14, int(NELEM(kVSizes)) - 1)};
     if (sel < 75) return vh::Op{5, *vh::irange<int>(0, 13), *vh::irange<int>(0, 1), *vh::irange<int>(0, int(NELEM(kAddrs)) - 1)};
     if (sel < 81) return vh::Op{6, *vh::irange<int>(0, 13), *vh::irange<int>(0, 3)};
     if (sel < 88) return vh::Op{8, *vh::irange<int>(0, 13), *vh::irange<int>(0, 13)};
@@ -574,6 +576,10 @@ void vh_run(const vh::Case& c, vh::Ctx& ctx) {
   if (cs_flat > size_before_flatten) ctx.cls("code_size_grew_in_flatten");
   if (cs_flat < size_before_flatten) ctx.cls("code_size_shrank_in_flatten");
 
+  // A layout that spans 2 GiB or more: cross-section references and relocations may legitimately be out of range (C03/C04 judge those);
+  // C10 judged offsets, order, alignment, overlap and code_size() above and stops here.
+  if (cs_flat >= (1ull << 31) - 65536) { ctx.cls(cs_flat >= (1ull << 32) ? "huge_image_ge_4gib_layout_only" : "huge_image_ge_2gib_layout_only"); ctx.nontrivial(); return; }
+
   // ---- cross-section fixups ----
   e = code.resolve_cross_section_fixups();
   if (e != Error::kOk) {
@@ -624,6 +630,19 @@ void vh_run(const vh::Case& c, vh::Ctx& ctx) {
   }
 
   // ---- copies ----
+  {
+    // an image of more than 64 MiB (huge virtual sizes) is not materialised: offsets, order, alignment, overlap, the size estimate and
+    // code_size() == end of the last section were judged arithmetically above; here only the last of them after relocation
+    uint64_t end = 0;
+    for (Section* s : p.code.sections()) end = std::max<uint64_t>(end, s->offset() + s->real_size());
+    if (end > (64ull << 20)) {
+      size_t csz = p.code.code_size();
+      if (uint64_t(csz) != end) { char m[200]; snprintf(m, sizeof m, "code_size() is %zu, the last section ends at %llu (huge image, after relocation)", csz, (unsigned long long)end); ctx.fail("code-size-not-end", m); }
+      ctx.cls(end >= (1ull << 32) ? "huge_image_ge_4gib_layout_only" : "huge_image_layout_only");
+      ctx.nontrivial();
+      return;
+    }
+  }
   Expect ex;
   make_expect(ctx, p, ex, 301);
   size_t cs = ex.cs;
@@ -753,7 +772,9 @@ void vh_run(const vh::Case& c, vh::Ctx& ctx) {
       // own ASMJIT_ASSERT(code_size == code->code_size()) when the address table shrinks. Reported once, then not driven into.
       bool quirk = false;
       for (MSec& m : p2.secs) if (m.s->offset() % m.align != 0) quirk = true;
-      if (quirk) {
+      if (p2.code.code_size() > (64u << 20)) {
+        ctx.cls("jit_skipped_huge_image");      // JitRuntime::add would have to allocate the whole image (huge virtual sizes)
+      } else if (quirk) {
         ctx.fail_unless_known("empty-section-misaligned", "twin program for JitRuntime::add: an empty section got an offset that is not a multiple of its alignment");
         ctx.cls("jit_skipped_misaligned_empty_section");
       } else if ((e = rt.add(&fn, &p1.code)) == Error::kNoCodeGenerated) {
